@@ -85,8 +85,8 @@ theorem insertNew_cases (tg : Name → Option Name) (new : List NewTask) :
 /-- the creator call through loader `l` carried by (the task object of) node `n` -/
 theorem redef_evalCreator {inp : Input} (wf : RedefWF inp) {s : Sys} {n : Name} {l : LId} (h : RedefInv inp s)
     (hh : Holder inp n l) (hfresh : inp.creatorOf l ∉ s.evaluated) :
-    RedefInv inp (evalCreator inp s l (toLoad inp l n)) ∧
-      inp.creatorOf l ∈ (evalCreator inp s l (toLoad inp l n)).evaluated := by
+    RedefInv inp (evalCreator inp s l (toLoad inp l n) b) ∧
+      inp.creatorOf l ∈ (evalCreator inp s l (toLoad inp l n) b).evaluated := by
   have hmono : ∀ c, c ∈ s.evaluated → c ∈ s.evaluated ++ [inp.creatorOf l] :=
     fun c hc => List.mem_append_left _ hc
   have hnew : inp.creatorOf l ∈ s.evaluated ++ [inp.creatorOf l] :=
